@@ -33,6 +33,10 @@ theorem Wait_eq (w : Waiter) (e : Env) : Gen.Waiter.Wait w e = ((wait w e).w, (w
         · simp [h1, h2]
         · by_cases h3 : e.timerWins = true <;> simp [h1, h2, h3]
 
+/-- the timer is armed for exactly `waitFor = next - now` (the "timer does not fire early" hypothesis of the theorems is
+about a timer of that duration) -/
+theorem timerArmedFor_eq (waitFor : Int) : Gen.Waiter.timerArmedFor waitFor = waitFor := rfl
+
 theorem IsSlowDown_eq (w : Waiter) (c : Bool) : Gen.Waiter.IsSlowDown w c = isSlowDown w c := by
   unfold Gen.Waiter.IsSlowDown isSlowDown slowCond
   rw [MaxOverdueDuration_eq]
